@@ -246,9 +246,12 @@ class GuardedList:
     def __bool__(self):
         return bool(Or(*self.guards))
 
-    def __contains__(self, x):
+    def _sx_contains_(self, x):
         gs = [g for e, g in zip(self.elems, self.guards) if e is x or (not _symbolic(e) and e == x)]
-        return bool(Or(*gs))
+        return Or(*gs)
+
+    def __contains__(self, x):
+        return bool(self._sx_contains_(x))
 
     def __getitem__(self, i):
         return self.concretize()[i]
@@ -278,3 +281,101 @@ class GuardedList:
 
 def _symbolic(e):
     return isinstance(e, (SymInt, SymBool, AtomStr))
+
+
+class SymSet:
+    """set / frozenset built by the code under test from elements some of which are symbolic: membership is decided by
+    solver-decided equality instead of hashing"""
+
+    def __init__(self, elems, frozen=True):
+        self.elems = []
+        for e in elems:
+            if not any(x is e for x in self.elems):
+                self.elems.append(e)
+        self.frozen = frozen
+
+    def _sx_contains_(self, x):
+        return Or(*[key_eq(e, x) for e in self.elems])
+
+    def __contains__(self, x):
+        return bool(self._sx_contains_(x))
+
+    def __iter__(self):
+        return iter(list(self.elems))
+
+    def __len__(self):
+        # number of distinct elements: decided by forking on equalities
+        distinct = []
+        for e in self.elems:
+            if not any(bool(key_eq(d, e)) for d in distinct):
+                distinct.append(e)
+        return len(distinct)
+
+    def __bool__(self):
+        return bool(self.elems)
+
+    def __or__(self, o):
+        return SymSet(self.elems + list(o), self.frozen)
+    __ror__ = __or__
+    union = lambda self, *os: SymSet(self.elems + [x for o in os for x in o], self.frozen)
+
+    def add(self, x):
+        if self.frozen:
+            raise AttributeError('add')
+        self.elems.append(x)
+
+    def __hash__(self):
+        raise Unsupported('hash of a set with symbolic members')
+
+    def __repr__(self):
+        return 'SymSet(%d)' % len(self.elems)
+
+
+class SymFlag:
+    """value of an enum.Flag class called with a symbolic int"""
+
+    def __init__(self, cls, value):
+        self.cls = cls
+        self.value = value
+        self._value_ = value
+
+    def _sx_contains_(self, m):
+        v = getattr(m, 'value', m)
+        return (self.value & v) == v
+
+    def __contains__(self, m):
+        return bool(self._sx_contains_(m))
+
+    def _v(self, o):
+        return o.value if isinstance(o, (SymFlag, self.cls)) else o
+
+    def __and__(self, o):
+        return SymFlag(self.cls, self.value & self._v(o))
+    __rand__ = __and__
+
+    def __or__(self, o):
+        return SymFlag(self.cls, self.value | self._v(o))
+    __ror__ = __or__
+
+    def __xor__(self, o):
+        return SymFlag(self.cls, self.value ^ self._v(o))
+
+    def __bool__(self):
+        return bool(self.value != 0)
+
+    def __eq__(self, o):
+        if isinstance(o, (SymFlag, self.cls)):
+            return self.value == o.value
+        return NotImplemented
+
+    def __hash__(self):
+        raise Unsupported('hash of a symbolic flag value')
+
+    def __iter__(self):
+        for m in self.cls:
+            if m in self:
+                yield m
+
+    @property
+    def name(self):
+        raise Unsupported('name of a symbolic flag value')
